@@ -358,9 +358,10 @@ def r09_6_shared(repo: Repo, rep: Report):
     """the context a call sees (sender under prank, frame state) must not be shared between sibling paths or frames:
     fork-copy completeness and the absence of custom copy hooks (shared with C20 / C14)"""
     from hsa.rules.c14 import r14_1_prank_consumption
-    from hsa.rules.c20 import r20_1_fork_copies
+    from hsa.rules.c20 import r20_1_fork_copies, r20_8_no_aliasing_assignment
 
     r20_1_fork_copies(repo, rep)
+    r20_8_no_aliasing_assignment(repo, rep)
     r14_1_prank_consumption(repo, rep)
 
 
